@@ -5,6 +5,8 @@
    vm/embedded/implementation/token.go; every other embedded method is the arbitrary parameter [KOther]. *)
 From ZV Require Import Prelude Ledger LedgerProofs LedgerEmb LedgerEmbProofs LedgerSource.
 Require ZV.gen.Pure ZV.gen.PureFunds.
+From ZV Require Import TokenSource.
+From ZV.gen Require Import PureToken.
 From ZV.gen Require Import Consts.
 Open Scope Z_scope.
 
@@ -140,3 +142,35 @@ Theorem C01_add_balance_is_the_source : forall s a z v,
   ZV.gen.PureFunds.AddBalance v (get_bal (a, z) (bal s)) 0 0 = GoSem.Ok (Some (get_bal (a, z) (bal (add_balance s a z v)))).
 Proof. exact add_balance_is_source. Qed.
 
+(* ---- the two operations that change a token's recorded supply after its issue, proved DIRECTLY about the code:
+   MintMethod.ReceiveBlock and BurnMethod.ReceiveBlock translated from /repo's source by go2coq on every run
+   (gen/PureToken.v); result = (descendant blocks, error, written TotalSupply [MaxSupply], effect Save, amount handed to
+   AddBalance / SubBalance of the token contract). See theories/TokenSource.v. *)
+Theorem C01_source_mint_success : forall total v u g mintable max amt zts embSender sv embRecv pe recv owner sender bl total' es eb,
+  Mint_receive total v u g mintable max amt zts embSender sv embRecv pe recv owner sender = GoSem.Ok (bl, 0, total', es, eb) ->
+  bl = [(recv, amt, zts)] /\ total' = total + amt /\ total' <= max /\ mintable = true /\
+  es = Some 1 /\ eb = Some amt /\
+  ((zts = ZnnTokenStandard \/ zts = QsrTokenStandard) -> embSender = true) /\
+  (zts <> ZnnTokenStandard -> zts <> QsrTokenStandard -> owner = sender).
+Proof. exact mint_success. Qed.
+Theorem C01_source_mint_refusal : forall total v u g mintable max amt zts embSender sv embRecv recv owner sender bl e total' es eb,
+  Mint_receive total v u g mintable max amt zts embSender sv embRecv 0 recv owner sender = GoSem.Ok (bl, e, total', es, eb) -> e <> 0 ->
+  bl = [] /\ total' = total /\ es = None /\ eb = None.
+Proof. exact mint_refusal. Qed.
+Theorem C01_source_burn_success : forall total max v g burnable owner sender mintable amt sv bl total' max' es eb,
+  Burn_receive total max v g burnable owner sender mintable amt sv = GoSem.Ok (bl, 0, total', max', es, eb) ->
+  bl = [] /\ total' = total - amt /\ max' = (if mintable then max else max - amt) /\
+  (burnable = true \/ owner = sender) /\ es = Some 1 /\ eb = Some amt.
+Proof. exact burn_success. Qed.
+Theorem C01_source_burn_refusal : forall total max v g burnable owner sender mintable amt sv bl e total' max' es eb,
+  Burn_receive total max v g burnable owner sender mintable amt sv = GoSem.Ok (bl, e, total', max', es, eb) -> e <> 0 ->
+  bl = [] /\ total' = total /\ max' = max /\ es = None /\ eb = None.
+Proof. exact burn_refusal. Qed.
+Theorem C01_source_mint_burn_keep_supply_within_max :
+  (forall total v u g mintable max amt zts embSender sv embRecv pe recv owner sender bl total' es eb,
+     Mint_receive total v u g mintable max amt zts embSender sv embRecv pe recv owner sender = GoSem.Ok (bl, 0, total', es, eb) ->
+     total' <= max /\ eb = Some (total' - total)) /\
+  (forall total max v g burnable owner sender mintable amt sv bl total' max' es eb,
+     Burn_receive total max v g burnable owner sender mintable amt sv = GoSem.Ok (bl, 0, total', max', es, eb) ->
+     0 <= amt -> total <= max -> total' <= max' /\ eb = Some (total - total')).
+Proof. exact mint_burn_keep_supply_within_max. Qed.
